@@ -188,6 +188,20 @@ def check(ctx):
     for k in KINDS:
         cands = [e for e in bt.get(k['tag'], []) if e.method == k['wmethod'] and (not k.get('need_key') or k['need_key'] in e.keys())]
         if not cands:
+            # the element may be emitted by a helper the writer method delegates to (extracted arm / shared tail)
+            wms = py.methods('girwriter', 'GIRWriter')
+            reach, todo = set(), [k['wmethod']]
+            for _ in range(3):
+                nxt = []
+                for mn_ in todo:
+                    for c_ in P.calls_in(wms[mn_]) if mn_ in wms else []:
+                        cn_ = P.call_name(c_) or ''
+                        if cn_.startswith('self.') and cn_[5:] in wms and cn_[5:] not in reach:
+                            reach.add(cn_[5:])
+                            nxt.append(cn_[5:])
+                todo = nxt
+            cands = [e for e in bt.get(k['tag'], []) if e.method in reach and (not k.get('need_key') or k['need_key'] in e.keys())]
+        if not cands:
             raise AnalysisError('writer model has no <%s> element emitted by %s' % (k['tag'], k['wmethod']))
         e = cands[0]
         base = base_of(e.rows)
